@@ -349,3 +349,8 @@ package transport
 //@   oncall closeWithErr: nC = nC + 1
 //@   modifies c.closed
 //@   ensures [C18:close-tears-down] nC == 1 && err == nil
+
+// closing a transport (any implementation) does not touch its user's state: it closes its own connections
+//@ func (t Transport) Close() (err error)
+//@   trusted
+//@   modifies nothing
